@@ -45,6 +45,9 @@ CHECKS = {
          "For every sequence method in every reachable state: every stop position, callbacks after false counted, then two more full passes over the same sequence value must equal the first."),
  "C15": ("model_checking", "E1-HIST", E1_TECH, E1_NOTE,
          "Complete raw structural dump (stale lanes, all inline bytes, size) compared before/after every group of queries, every Delete(absent) and every overwrite, in every reachable state."),
+ "C17": ("exploration", "E5-HEAP", "exhaustive enumeration of (reachable state, operation cycle) pairs of small closures; per pair a live-heap measurement after forced collections against a fixed threshold",
+         "The set of (state, cycle) pairs is exhaustive for the listed universes; the verdict per pair is a measurement (HeapAlloc after two forced GCs) with thresholds two orders of magnitude from both behaviours; violations are re-measured before being reported.",
+         "Every operation cycle (queries, overwrites, absent deletes, delete/insert churn incl. grow/shrink thresholds) of every reachable state is pumped 4*10^4 times and the live heap must not grow; 200 trees per state are churned and emptied and must retain only a small constant."),
  "C19": ("translation_validation", "E6-GEN", "complete enumeration of the five template instantiations, byte comparison with the repository generator's formatted output",
          "text/template and gofmt of the pinned toolchain are trusted.",
          "Runs the repository's own generator on the working tree's template (both initial states of the output file) and compares each of the five instantiations byte-for-byte."),
@@ -52,7 +55,6 @@ CHECKS = {
 
 PENDING = {
  "C16": "check under construction in this session (statement-level schedule exploration, DESIGN.md §5/C16); not yet claimed",
- "C17": "check under construction in this session (heap probe over state x cycle pairs, DESIGN.md §5/C17); not yet claimed",
  "C18": "check under construction in this session (GC as explored environment event, DESIGN.md §5/C18); not yet claimed",
 }
 
